@@ -164,6 +164,9 @@ def main(chk: C.Check, build_: C.Build) -> None:
     kinds_seen: set[str] = set()
     nontrivial = 0
     ast_nodes = 0
+    loc_checked = 0
+    loc_line_gt1 = 0
+    loc_col0_line_gt1 = 0
     items: list[dict[str, Any]] = []
     samples = []
     shared = {b for b, k in cs.uses().items() if k >= 3}
@@ -193,6 +196,12 @@ def main(chk: C.Check, build_: C.Build) -> None:
         if out[0] == "pyexc":
             chk.finding(f"PyExc {out[1]} @ {out[2]}", f"tokenize raised {out[1]} in {out[2]}",
                         {"source": src, "shorthand_indexes": sh})
+        if out[0] == "lerr":
+            lfail = L.location_check(out[3], src)
+            loc_checked += out[2] is not None
+            if lfail:
+                chk.finding("oracle:" + lfail.split(":")[0], lfail,
+                            {"source": src, "token_start": out[2], "how": "tokenize; exc.context(), detailed_message(), str()"})
         if out[0] == "ok" and not sh and it[5] in ("corpus", "generated"):
             cnt, afail = L.ast_positions(src)
             ast_nodes += cnt
@@ -214,6 +223,32 @@ def main(chk: C.Check, build_: C.Build) -> None:
             samples.append({"source": src, "shorthand_indexes": sh, "family": it[5],
                             "outcome": L.outcome_json(out)})
 
+    # error locations through the parser and the renderer: an erroneous construct
+    # at every line start of multi-line sources, and the whole corpus
+    from liquid2.exceptions import LiquidError
+    lenv = L.env_for(False)
+    for src in G.error_line_sources(C.rng("c17-lines", chk.tier), chk.tier) + [s for s in G.corpus(C.REPO) if len(s) <= 600]:
+        try:
+            lenv.from_string(src).render()
+            continue
+        except LiquidError as e:
+            err = e
+        except Exception:  # noqa: BLE001  (C02's business)
+            continue
+        tok = getattr(err, "token", None)
+        if tok is None or tok.start < 0 or getattr(tok, "source", None) != src:
+            continue
+        loc_checked += 1
+        exp = L.expected_location(src, tok.start)
+        if exp and exp[0] > 1:
+            loc_line_gt1 += 1
+            loc_col0_line_gt1 += exp[1] == 0
+        lfail = L.location_check(err, src)
+        if lfail:
+            chk.finding("oracle:" + lfail.split(":")[0], lfail,
+                        {"source": src, "error": type(err).__name__, "token_start": tok.start,
+                         "how": "Environment().from_string(source).render(); exc.context(), detailed_message(), str()"})
+
     # correspondence, in groups that share base definitions
     items.sort(key=lambda x: x["base"])
     for gi in range(0, len(items), GROUP):
@@ -233,6 +268,8 @@ def main(chk: C.Check, build_: C.Build) -> None:
                  "(i.e. the scanner left lex_markup's CONTENT branch)"),
         "samples": samples,
         "distribution": {"families": fam, "outcomes": outcomes, "bases": len(cs.bases), "ast_nodes_and_expressions_checked": ast_nodes,
+                         "error_locations_checked": loc_checked, "of_which_on_a_line_after_the_first": loc_line_gt1,
+                         "of_which_at_column_0_of_a_later_line": loc_col0_line_gt1,
                          "markup_token_classes_seen": sorted(kinds_seen)},
         "alphabet": "all of Unicode for the \\s/\\w/linebreak tables (compared exhaustively with CPython); generated sources use ASCII plus "
                     "U+00A0 U+00E9 U+00FC U+00EF U+2003 U+2028 U+0085 U+001C U+000B U+65E5 U+672C U+1F600 and whatever the corpus contains",
